@@ -42,7 +42,9 @@ EXPLANATION = (
     '(environment typestate). Decides these necessary conditions of the "every violation is '
     'reported" direction; not the "never refuses a valid spec" direction nor the lexer\'s '
     'indentation arithmetic.'
-    " R7 (imported from C02-R5): the legality checks iterate all_fields; Struct/Union.all_fields must include every ancestor's fields, otherwise a legal reference to an inherited tag or field is refused.")
+    " R7 (imported from C02-R5): the legality checks iterate all_fields; Struct/Union.all_fields must include every ancestor's fields, otherwise a legal reference to an inherited tag or field is refused."
+    ' RC (call-condition drift, stonelint.conddrift.run_calls): for every call of a repository or imported-library function in the functions the property is anchored in, the path conditions of its occurrences are compared with reference/conditions.json by truth table; an assignment under which the function used to make the call and now completes without it is a violation (tests on memo tables, emptiness of the iterated collection and earlier refusals excepted; re-spelled conditions are not claimed).'
+    ' MK (memo-key rule, stonelint.memo): a memo table or done-set the reference tree does not have must be keyed by every access path the skipped code reads, injectively and type-aware.')
 ASSUMPTIONS = [
     'reference/enforcement_sites.json holds, per function, the number of error-reporting sites '
     'confirmed by reading at the pinned commit plus the fix commits; a function may gain sites '
